@@ -70,6 +70,7 @@ type Config struct {
 	App2FAHandler     bool     // the application registers After(EventTwoFactorAdded/Removed) handlers that answer the request themselves
 	MailGoroutine     bool     // leave MailNoGoroutine=false (schedule engine only)
 	SMTPMailer        bool     // use defaults.SMTPMailer (through the vsmtp shim)
+	PerClientData     bool     // the application injects per-client template data into every request context (CTXKeyData)
 	LogMailer         bool     // use defaults.LogMailer writing into the world's mail stream (every Write is a scheduling point)
 }
 
@@ -569,6 +570,12 @@ func NewStack(cfg Config) (*Stack, error) {
 		ctx := context.WithValue(r.Context(), xoauth2.HTTPClient, &http.Client{Transport: providerRT{}})
 		if cfg.SharedLayout && s.W.Layout != nil {
 			ctx = context.WithValue(ctx, authboss.CTXKeyData, authboss.HTMLData(s.W.Layout))
+		}
+		if cfg.PerClientData {
+			// a data-injecting middleware as the README describes: values that belong to this client only,
+			// one of them under a key other clients' requests do not carry at all
+			b := r.Header.Get("X-Browser")
+			ctx = context.WithValue(ctx, authboss.CTXKeyData, authboss.HTMLData{"current_client": b, "only_for_" + b: "yes"})
 		}
 		inner.ServeHTTP(w, r.WithContext(ctx))
 	})
